@@ -90,8 +90,8 @@ func buildEngine(p *propCfg) string {
 	if altTag != "" {
 		suffix = "." + altTag
 	}
-	if p.Overlay == "simrt" {
-		suffix += ".simrt" // instrumented build: its own binary
+	if p.Overlay != "" && p.Overlay != "pin" {
+		suffix += "." + p.Overlay // instrumented / re-tuned build: its own binary
 	}
 	out := filepath.Join(root, ".build", p.Engine+suffix+".test")
 	args := []string{"test", "-c", "-tags", "verif", "-o", out}
